@@ -18,6 +18,14 @@ Part 5 (history): one long-lived schedule object is evaluated, reconfigured (the
         loses the date; exceptionSchedule, weeklySchedule, effectivePeriod, scheduleDefault written), evaluated again, the
         change undone, evaluated again - in pure eval() and on the object's own timer; the result must be the one the
         reference prescribes for the CURRENT configuration, whatever was evaluated before.
+Part 6 (E3, value domains): eval() with the schedule's datatype crossed with the place the type's zero / empty / false value
+        stands in (Boolean False, BinaryPV inactive, Enumerated 0, Unsigned 0, Integer 0, Real / Double 0.0, empty character,
+        octet and bit string): every slot in turn - each entry of each exception of rank 1..3, each entry of the weekday's
+        list, the default; entry times with hundredths of a second (08:00:00.50, 23:59:59.99), evaluated one hundredth
+        before, at and after them.
+Part 7 (as part 3): timer-driven runs (a) in every value domain with the zero in every slot, whole-second entry times, and
+        (b) with Integer values and entry times that carry hundredths of a second, probed in the hundredth before, the
+        hundredth of and the hundredth after every such entry.
 """
 import calendar as _cal
 import datetime
@@ -27,10 +35,11 @@ import time
 
 import bv  # noqa: F401
 from bacpypes import core
-from bacpypes.primitivedata import Null, Integer
+from bacpypes.primitivedata import (Null, Integer, Boolean, Unsigned, Real, Double, CharacterString, OctetString, BitString,
+                                    Enumerated)
 from bacpypes.constructeddata import ArrayOf, ListOf
 from bacpypes.basetypes import (DailySchedule, DateRange, TimeValue, SpecialEvent, SpecialEventPeriod,
-                                CalendarEntry)
+                                CalendarEntry, BinaryPV)
 from bacpypes.object import CalendarObject
 from bacpypes.app import Application
 from bacpypes.local.device import LocalDeviceObject
@@ -77,10 +86,28 @@ RULE = ("part1: every (calendar date of the listed years) x (pattern): Date patt
         "clock's date {the date, the next day}; after each change the date, the next day and the date again are evaluated "
         "at the 10 instants of part 2 with the oracle of part 2.  timer: the object runs from the day before, the change is "
         "made on the date at {07:00, 09:00:01, 17:30, 23:59:30}, undone the next day at 12:00:30, run to the end of the "
-        "following day, probed as in part 3 and at both writes.")
+        "following day, probed as in part 3 and at both writes.  part6: every (shape configuration, datatype, slot holding the "
+        "zero): shape configuration = 0..3 exceptions in force (list shapes over the times {00:00, 08:00:00.50, 17:00, "
+        "23:59:59.99}: value all day / value from 08:00:00.50 / value relinquished at 17:00 / value and a second value in the last "
+        "hundredth / Null then value / value from 17:00; every pair, every triple of the first three (T: of all six), listed in "
+        "priority order, reversed and rotated; one exception also with a second one that is not in force) x weekly list of the "
+        "weekday {absent, empty, the six shapes} (two exceptions: 2 (T: 4), three: 2 alternatives; three exceptions in quick: "
+        "reversed and rotated order only); datatype = the 10 of DOMAINS; "
+        "large domains: no slot or exactly one slot (each non-Null entry of each exception and of the weekday's list, the "
+        "default) holds the type's zero and all other slots pairwise different other values; two-valued domains (Boolean, "
+        "BinaryPV): one slot holds one value and all others the other one, both polarities; priorities, period kinds and the "
+        "evaluated date rotate; evaluated at 12 instants {00:00, 00:01, 08:00, 08:00:00.49, .50, .51, 08:01, 16:59:59.99, 17:00, "
+        "17:01, 23:59:59.98, 23:59:59.99} with the oracle of part 2.  part7: (a) 2 anchor dates x 5 bodies (weekly only; dated "
+        "exception over weekly; two exceptions, the higher one relinquishing at 17:00; calendar-reference exception without "
+        "weekly list; three exceptions listed out of priority order) x datatype x slot holding the zero as in part 6, 3 virtual "
+        "days, probed as in part 3; (b) 2 anchor dates x 8 bodies with entry times {08:00:00.50, 00:00:00.01, 23:59:59.99, "
+        "12:30:15.25/.75, 08:00:00.07, 08:00:00.50/.51, 16:59:59.99} in weekly lists and in exceptions of each period kind x "
+        "effective period {open, entered on day 1, day 1 only} x start instant {00:00, 13:27:41.50}, probed as in part 3 and "
+        "in the hundredth before / of / after every entry time that carries hundredths; a reading with hundredths is probed in "
+        "the middle of that hundredth (x.xx5 s).")
 ASSUMPTIONS = [
-    "schedule objects are built the way tests/test_local builds them (time values hold Integer/Null atomics, times and "
-    "dates are 4-tuples, WeekNDay is the 3-octet string a decoded CalendarEntry holds); values that arrive as AnyAtomic "
+    "schedule objects are built the way tests/test_local builds them (time values hold atomics of the schedule's datatype or "
+    "Null, times and dates are 4-tuples, WeekNDay is the 3-octet string a decoded CalendarEntry holds); values that arrive as AnyAtomic "
     "wrappers through WriteProperty are not covered",
     "time-value lists are in ascending time order with distinct times (the interpreter scans in list order; the statement "
     "does not say what an unsorted list means), all times are specific",
@@ -109,8 +136,15 @@ ASSUMPTIONS = [
     "a fixed configuration; probes before that wake-up are counted (outcomes p5:timer:write-not-monitored:...), not judged",
     "part 5: objects are reconfigured through the local API (attribute assignment / WriteProperty(direct=True) / the list "
     "object held by the Calendar), not through BACnet services",
-    "one value type (Integer); schedules with neither weeklySchedule nor exceptionSchedule are a configuration error by "
-    "the standard and are not enumerated",
+    "parts 2-5 use one value type (Integer, default 0), parts 6-7 the primitive datatypes Boolean, BinaryPV (an enumeration "
+    "with names), Enumerated, Unsigned, Integer, Real, Double, CharacterString, OctetString, BitString; Date, Time and "
+    "ObjectIdentifier schedules are not enumerated; schedules with neither weeklySchedule nor exceptionSchedule are a "
+    "configuration error by the standard and are not enumerated",
+    "entry times with hundredths of a second (parts 6-7): the clock of the device is read in whole hundredths (truncated); the "
+    "value of an entry at hh:mm:ss.xx is demanded from the middle of that hundredth on (5 ms after its nominal start) and not "
+    "before the middle of the hundredth before it; binary floating point cannot hold most hundredths exactly, nothing is "
+    "demanded inside that half hundredth; parts 3-5 use whole-second entry times (probed at the exact second), part 4 "
+    "(clock changes) too",
 ]
 BOUNDS = {
     "quick": "part1 years 1900,1999,2000,2023,2024,2100,2154 (2 557 dates); part2 <=1 exception over all 27 lists, 2 exceptions over "
@@ -118,12 +152,15 @@ BOUNDS = {
              "part4 zones CET-1CEST,M3.5.0,M10.5.0/3 and EST5EDT,M3.2.0,M11.1.0, both clock changes of 2024, 5 effective periods x "
              "212 bodies (53 lists) x 2 start instants, 4-5 virtual days; "
              "part5 3 dates x 10 configurations x 13-21 changes x 12 pure histories, 2 dates x 10 configurations x changes x 4 "
-             "change times timer-driven (4 virtual days)",
+             "change times timer-driven (4 virtual days); part6 354 shape configurations (<=3 exceptions in force) x 10 datatypes x "
+             "every slot holding the zero, 12 instants; part7 2 anchor dates x (5 bodies x 10 datatypes x every slot + 8 bodies "
+             "with hundredths x 3 effective periods x 2 start instants), 3 virtual days",
     "thorough": "part1 every date 1900..2154 (93 137 dates); part2 <=2 exceptions over all 27 lists, 3 exceptions (at most one of them not in force) over the "
                 "19 lists of <=2 entries with 5 of the 20 weekly alternatives; part3 10 anchor dates x 8 effective periods x larger body set; "
                 "part4 the two zones of quick + <-03>3<-02>,M10.3.0/0,M2.3.0/0 (changes at midnight, southern hemisphere) + "
                 "<+1030>-10:30<+11>-11,M10.1.0,M4.1.0 (half-hour shift), both clock changes of 2024 and 2038, 5 effective periods x "
-                "532 bodies (133 lists) x 2 start instants; part5 as quick",
+                "532 bodies (133 lists) x 2 start instants; part5 as quick; part6 1 686 shape configurations (triples over all six "
+                "list shapes) x 10 datatypes x every slot; part7 as quick",
 }
 
 ANY = 255
@@ -446,18 +483,82 @@ def p1_shard(item, deadline):
 
 # ----------------------------------------------------------------------------- building real objects
 
-def mk_tvs(tvs):
-    return [TimeValue(time=tuple(t), value=(Null() if v is None else Integer(v))) for (t, v) in tvs]
+# Value domains (parts 6 and 7).  A description may carry "vtype": the datatype of the schedule; its values are then
+# NUMBERS OF VALUES in that type's palette (plain integers for the reference), 0 being the type's zero / empty / false value.
+# Without "vtype" a value is the Integer itself (parts 2-5).
+
+def _bits(k):
+    return [int(c) for c in bin(k)[2:]] if k else []
+
+
+DOMAINS = {
+    # name: (class, number of values or None for "as many as needed", palette number -> raw value)
+    "boolean": (Boolean, 2, lambda k: bool(k)),
+    "binary-pv": (BinaryPV, 2, lambda k: ("inactive", "active")[k]),
+    "enumerated": (Enumerated, None, lambda k: k),
+    "unsigned": (Unsigned, None, lambda k: k),
+    "integer": (Integer, None, lambda k: k if k % 2 == 0 else -k),
+    "real": (Real, None, lambda k: k * 0.5),
+    "double": (Double, None, lambda k: k * 0.25),
+    "character-string": (CharacterString, None, lambda k: ("v%d" % k) if k else ""),
+    "octet-string": (OctetString, None, lambda k: k.to_bytes(2, "big") if k else b""),
+    "bit-string": (BitString, None, lambda k: _bits(k)),
+}
+VTYPES = tuple(DOMAINS)
+_PALETTE = {}
+INITIAL = 999                     # palette number of the present value an object of a large domain is created with
+
+
+def two_valued(vtype):
+    return vtype is not None and DOMAINS[vtype][1] == 2
+
+
+def _hashable(raw):
+    return tuple(raw) if isinstance(raw, list) else raw
+
+
+def mk_value(vtype, v):
+    if v is None:
+        return Null()
+    if vtype is None:
+        return Integer(v)
+    cls, n, make = DOMAINS[vtype]
+    return cls(make(v))
+
+
+def plain_of(vtype, value):
+    """Atomic -> what the description calls it (None for Null, the integer, the palette number)."""
+    if isinstance(value, Null):
+        return None
+    raw = getattr(value, "value", value)
+    if vtype is None:
+        return raw
+    cls, n, make = DOMAINS[vtype]
+    if vtype not in _PALETTE:
+        _PALETTE[vtype] = dict(((type(make(k)).__name__, _hashable(make(k))), k) for k in range(n or 1000))
+    if not isinstance(value, cls):
+        return ("value of another type", type(value).__name__, repr(raw))
+    return _PALETTE[vtype].get((type(raw).__name__, _hashable(raw)), ("value outside the palette", repr(raw)))
+
+
+def initial_of(desc):
+    vt = desc.get("vtype")
+    return -1 if vt is None else (1 if two_valued(vt) else INITIAL)
+
+
+def mk_tvs(tvs, vtype=None):
+    return [TimeValue(time=tuple(t), value=mk_value(vtype, v)) for (t, v) in tvs]
 
 
 def build(desc, with_app=True):
     """Real objects for a plain schedule description.  Returns (app or None, schedule object, calendar objects)."""
     cals = []
-    kwargs = dict(objectIdentifier=("schedule", 1), objectName="sched", presentValue=Integer(-1),
+    vt = desc.get("vtype")
+    kwargs = dict(objectIdentifier=("schedule", 1), objectName="sched", presentValue=mk_value(vt, initial_of(desc)),
                   effectivePeriod=DateRange(startDate=tuple(desc["period"][0]), endDate=tuple(desc["period"][1])),
-                  scheduleDefault=Integer(desc["default"]))
+                  scheduleDefault=mk_value(vt, desc["default"]))
     if desc.get("weekly") is not None:
-        kwargs["weeklySchedule"] = ArrayOfDaily([DailySchedule(daySchedule=mk_tvs(day)) for day in desc["weekly"]])
+        kwargs["weeklySchedule"] = ArrayOfDaily([DailySchedule(daySchedule=mk_tvs(day, vt)) for day in desc["weekly"]])
     if desc.get("exceptions") is not None:
         specials = []
         for k, e in enumerate(desc["exceptions"]):
@@ -469,7 +570,7 @@ def build(desc, with_app=True):
                 period = SpecialEventPeriod(calendarReference=cid)
             else:
                 period = SpecialEventPeriod(calendarEntry=mk_entry(e["period"]))
-            specials.append(SpecialEvent(period=period, listOfTimeValues=mk_tvs(e["tv"]), eventPriority=e["prio"]))
+            specials.append(SpecialEvent(period=period, listOfTimeValues=mk_tvs(e["tv"], vt), eventPriority=e["prio"]))
         kwargs["exceptionSchedule"] = ArrayOfSpecial(specials)
     so = LocalScheduleObject(**kwargs)
     if so.reliability != "noFaultDetected":
@@ -604,6 +705,8 @@ def source_of(desc, d, t, value):
     """Where does this (unique) value come from?  Used only to name root causes."""
     if value is None:
         return "none"
+    if not isinstance(value, int):
+        return "unknown-value"
     if value == desc["default"]:
         return "default"
     if 900 <= value < 910:
@@ -624,6 +727,19 @@ def source_of(desc, d, t, value):
                 when = "future-entry" if tuple(tt) > tuple(t) else ("latest-entry" if ref.list_value(wk[d.weekday()], t) == v else "superseded-entry")
                 return "weekly.%s" % when
     return "unknown-value"
+
+
+def want_source(desc, d, t, want):
+    """Name of the place the prescribed value stands in.  Schedule-wide unique integers name themselves (parts 2-5); in a
+    value domain (two-valued types!) the reference says where it took the value from."""
+    if desc.get("vtype") is None:
+        return source_of(desc, d, t, want)
+    src = ref.present_source(desc, d, t)
+    if src is None:
+        return "none"
+    if src[0] == "exception":
+        return "exception-rank%d.latest-entry" % src[1]
+    return "weekly.latest-entry" if src[0] == "weekly" else "default"
 
 
 def entry_kind(entry):
@@ -697,15 +813,18 @@ def judge_eval(desc, d, t, so, tag=None):
     if value is None:
         return "in-period:eval-returns-no-value", ("eval:effective-period:%s:active-day-evaluated-as-inactive" % range_class(desc["period"]),
                                                    {"result": (None, nt), "expected_value": want})
-    got = getattr(value, "value", value)
-    if isinstance(value, Null):
-        got = None
-    want_src = source_of(desc, d, t, want)
+    vt = desc.get("vtype")
+    got = plain_of(vt, value)
+    want_src = want_source(desc, d, t, want)
     if got != want:
         got_src = source_of(desc, d, t, got)
         dis = matcher_disagreement(desc, d)
         if dis is not None:
             sig = "eval:exception-period:%s:matcher-disagrees-with-calendar" % dis
+        elif vt is not None:
+            # value domains: the root cause is named by the datatype, where the prescribed value stands and whether it is
+            # the type's zero (what is shown instead goes into the detail)
+            sig = "eval:value-domain:%s:want=%s[%s]" % (vt, want_src, "zero-of-the-type" if want == 0 else "other-value")
         elif tag == "p2b":
             sig = "eval:exception-period:%s:in-force-status-wrong" % period_kind(desc["exceptions"][0])
         else:
@@ -719,7 +838,7 @@ def judge_eval(desc, d, t, so, tag=None):
     for x in ref.instants_between(desc, (d, tuple(t)), stop)[1:]:
         st = ref.present_value(desc, x[0], x[1])
         if st != (True, want):
-            missed = "period-exit" if not st[0] else source_of(desc, x[0], x[1], st[1])
+            missed = "period-exit" if not st[0] else want_source(desc, x[0], x[1], st[1])
             if x[0] != d:
                 missed = "next-day:" + missed
             dis = matcher_disagreement(desc, d)
@@ -732,8 +851,8 @@ def judge_eval(desc, d, t, so, tag=None):
     return lab, None
 
 
-def p2_eval_desc(acc, desc, dates, instants, tag, key=None):
-    """Build once, evaluate at dates x instants, record."""
+def p2_eval_desc(acc, desc, dates, instants, tag, key=None, part="2"):
+    """Build once, evaluate at dates x instants, record (under part 2, or part 6 for the value domains)."""
     try:
         app, so, cals = build(desc)
     except HarnessError:
@@ -746,7 +865,7 @@ def p2_eval_desc(acc, desc, dates, instants, tag, key=None):
         for d in dates:
             for t in instants:
                 lab, bad = judge_eval(desc, d, t, so, tag)
-                acc.outcome("p2:" + lab)
+                acc.outcome("p%s:%s" % (part, lab))
                 if bad is not None:
                     sig, detail = bad
                     detail = dict(detail)
@@ -754,8 +873,8 @@ def p2_eval_desc(acc, desc, dates, instants, tag, key=None):
                     acc.fail(sig, detail, {"part": 2, "tag": tag, "desc": desc, "date": (d.year, d.month, d.day), "time": t})
         acc.evaluations += len(dates) * len(instants)
         acc.keys.add(h64(key if key is not None else (tag, repr(desc), [str(d) for d in dates])))
-        acc.add_info("part2 schedules", 1)
-        acc.add_info("part2 (schedule,date,instant) evaluations", len(dates) * len(instants))
+        acc.add_info("part%s schedules" % part, 1)
+        acc.add_info("part%s (schedule,date,instant) evaluations" % part, len(dates) * len(instants))
     finally:
         unbuild(app, so, cals)
 
@@ -881,18 +1000,38 @@ RUN_DAYS = 6
 MAX_TIMER_STEPS = 2000
 
 
-def p3_probes(day0):
+def hundredths_times(desc):
+    """Entry times of the description that are not on a whole second."""
+    return [t for t in ref.all_times(desc) if t[3]]
+
+
+def p3_probes(day0, desc=None, days=RUN_DAYS):
+    """The probed civil readings.  For every entry time with hundredths also that reading, the hundredth before and the
+    hundredth after it (part 7)."""
+    ts = set(INSTANTS[:-1] + ((23, 59, 59, 0),))
+    for t in (hundredths_times(desc) if desc is not None else ()):
+        cs = ((t[0] * 60 + t[1]) * 60 + t[2]) * 100 + t[3]
+        for c in (cs - 1, cs, cs + 1):
+            if 0 <= c < 8640000:
+                ts.add((c // 360000, c // 6000 % 60, c // 100 % 60, c % 100))
     out = []
-    for i in range(RUN_DAYS):
+    for i in range(days):
         d = day0 + datetime.timedelta(days=i)
-        for t in INSTANTS[:-1] + ((23, 59, 59, 0),):
+        for t in sorted(ts):
             out.append((d, t))
     return out
 
 
-def p3_run(desc, day0, start_t):
+def probe_epoch(d, t):
+    """The instant a reading is probed at: a whole second exactly; a reading with hundredths in the middle of that hundredth
+    (the clock's reading truncates to hundredths, and a binary float cannot hold most of them exactly)."""
+    return epoch(d, t) + (0.005 if t[3] else 0.0)
+
+
+def p3_run(desc, day0, start_t, days=RUN_DAYS):
     """One execution.  Returns (observations, verdict, swallowed) where verdict = None or (signature, detail)."""
     desc = tup(desc)
+    vt = desc.get("vtype")
     start = (day0, tuple(start_t))
     vclock.reset(epoch(day0, start_t))
     app = get_app(fresh=True)
@@ -907,12 +1046,11 @@ def p3_run(desc, day0, start_t):
     livelock = None
     try:
         vclock.settle()
-        for (d, t) in p3_probes(day0):
+        for (d, t) in p3_probes(day0, desc, days):
             if (d, t) < start:
                 continue
-            vclock.run_until(epoch(d, t), max_steps=MAX_TIMER_STEPS)
-            pv = so.presentValue
-            pv = None if isinstance(pv, Null) else getattr(pv, "value", pv)
+            vclock.run_until(probe_epoch(d, t), max_steps=MAX_TIMER_STEPS)
+            pv = plain_of(vt, so.presentValue)
             armed = bool(so._task.isScheduled)
             act, want = ref.present_value(desc, d, t)
             if act and not started_active:
@@ -924,8 +1062,9 @@ def p3_run(desc, day0, start_t):
                 else:
                     phase = "after-period-entry"
                 first_bad = ("value", phase, {"at": (str(d), t), "present_value": pv, "expected": want,
-                                               "source_expected": source_of(desc, d, t, want),
-                                               "source_shown": "initial-value" if pv == -1 else source_of(desc, d, t, pv),
+                                               "source_expected": want_source(desc, d, t, want),
+                                               "source_shown": "initial-value" if (pv == initial_of(desc) and not two_valued(vt))
+                                                               else source_of(desc, d, t, pv),
                                                "armed": armed})
     except vclock.Livelock as err:
         livelock = str(err)
@@ -934,7 +1073,7 @@ def p3_run(desc, day0, start_t):
     if swallowed:
         sw = swallowed[0].replace("an error has occurred: ", "").replace(" ", "-")[:60]
     pclass = range_class(desc["period"])
-    end_d = day0 + datetime.timedelta(days=RUN_DAYS)
+    end_d = day0 + datetime.timedelta(days=days)
     armed_end = bool(so._task.isScheduled)
     when_end = so._task.taskTime if armed_end else None
     verdict = None
@@ -957,10 +1096,11 @@ def p3_run(desc, day0, start_t):
             phase = "outside-period-throughout"
         verdict = ("timer:interpreter-not-armed-at-end:%s:%s:%s" % (phase, pclass, sw), {"armed": False})
     else:
-        # armed: it must not sleep past the next change the calendar dictates
-        last = (end_d - datetime.timedelta(days=1), (23, 59, 59, 0))
+        # armed: it must not sleep past the next change the calendar dictates (after the last probed reading)
+        last = max((end_d - datetime.timedelta(days=1), (23, 59, 59, 0)), p3_probes(day0, desc, days)[-1])
         nxt = ref.first_change(desc, last, horizon_days=3)
-        if nxt is not None and when_end is not None and when_end > epoch(nxt[0], nxt[1]) + 1e-6:
+        # (a change at a reading with hundredths: any instant at which the clock shows that hundredth, as for the probes)
+        if nxt is not None and when_end is not None and when_end > epoch(nxt[0], nxt[1]) + (0.005 if nxt[1][3] else 1e-6):
             verdict = ("timer:armed-later-than-next-change:%s:%s" % (pclass, sw),
                        {"armed_for": when_end, "next_change": (str(nxt[0]), nxt[1]), "next_change_epoch": epoch(nxt[0], nxt[1])})
     if verdict is not None:
@@ -1792,6 +1932,330 @@ def p5_shard(item, deadline):
     return acc
 
 
+# ----------------------------------------------------------------------------- part 6: value domains (pure evaluation)
+#
+# The schedule's datatype is crossed with the place the type's zero / empty / false value stands in: every slot of the
+# schedule (each non-Null entry of each exception, each non-Null entry of the weekday's list, the default) in turn holds the
+# zero while all other slots hold pairwise different other values (large domains), or holds one of the two values while
+# all other slots hold the other one (two-valued domains, both polarities).  Entry times include hundredths of a second.
+
+T6 = ((0, 0, 0, 0), (8, 0, 0, 50), (17, 0, 0, 0), (23, 59, 59, 99))
+I6 = ((0, 0, 0, 0), (0, 1, 0, 0), (8, 0, 0, 0), (8, 0, 0, 49), (8, 0, 0, 50), (8, 0, 0, 51), (8, 1, 0, 0), (16, 59, 59, 99),
+      (17, 0, 0, 0), (17, 1, 0, 0), (23, 59, 59, 98), (23, 59, 59, 99))
+R6 = (
+    ((T6[0], False),),                                   # a value all day
+    ((T6[1], False),),                                   # nothing, then a value from 08:00:00.50
+    ((T6[0], False), (T6[2], True)),                     # a value, relinquished at 17:00
+    ((T6[1], False), (T6[3], False)),                    # nothing, a value, another value in the last hundredth of the day
+    ((T6[0], True), (T6[1], False)),                     # Null, then a value
+    ((T6[2], False),),                                   # a value from 17:00
+)
+PR6 = {1: ((1,), (7,), (16,)), 2: ((1, 2), (2, 16), (8, 9)), 3: ((1, 2, 16), (3, 4, 5), (14, 15, 16))}
+ORDERS6 = {1: ((0,),), 2: ((0, 1), (1, 0)), 3: ((0, 1, 2), (2, 1, 0), (1, 2, 0))}
+
+
+def p6_shape_configs(tier):
+    """(exception list shapes by rank, list order, extra exception not in force?, weekly shape | None (absent) | ())."""
+    out = []
+    for wk in R6:
+        out.append(((), (), False, wk))
+    for e in R6:
+        for extra in (False, True):
+            for wk in (None, ()) + R6:
+                out.append(((e,), (0,), extra, wk))
+    for e1 in R6:
+        for e2 in R6:
+            for order in ORDERS6[2]:
+                for wk in ((None, R6[3]) if tier == "quick" else (None, R6[1], R6[2], R6[3])):
+                    out.append(((e1, e2), order, False, wk))
+    three = R6[:3] if tier == "quick" else R6
+    for e1 in three:
+        for e2 in three:
+            for e3 in three:
+                for order in (ORDERS6[3][1:] if tier == "quick" else ORDERS6[3]):
+                    for wk in (None, R6[3]):
+                        out.append(((e1, e2, e3), order, False, wk))
+    return out
+
+
+def p6_desc(cfg, d, rot):
+    """The description with schedule-wide unique values >= 1 (no slot holds the zero yet)."""
+    shapes, order, extra, wk = cfg
+    excs = []
+    if shapes:
+        prios = PR6[len(shapes)][rot % 3]
+        ranked = [{"period": periods_for(d, True, rot + 3 * k), "tv": fill(sh, 100 * (k + 1)), "prio": prios[k]}
+                  for k, sh in enumerate(shapes)]
+        excs = [ranked[i] for i in order]
+        if extra:
+            # not in force, the priority of the first one (never both in force)
+            excs.insert(rot % 2, {"period": periods_for(d, False, rot + 1), "tv": fill(R6[0], 400), "prio": prios[0]})
+    weekly = None
+    if wk is not None:
+        weekly = tuple(fill(wk, 10) if i == d.weekday() else (((0, 0, 0, 0), 900 + i),) for i in range(7))
+    return {"period": WIDE, "weekly": weekly, "exceptions": tuple(excs) if shapes else None, "default": 5}
+
+
+def p6_slots(desc, d):
+    """The places a value stands in: the default, the non-Null entries of every exception and of the weekday's list."""
+    out = [("default",)]
+    for k, e in enumerate(desc.get("exceptions") or ()):
+        for j, (t, v) in enumerate(e["tv"]):
+            if v is not None:
+                out.append(("exc", k, j))
+    if desc.get("weekly"):
+        for j, (t, v) in enumerate(desc["weekly"][d.weekday()]):
+            if v is not None:
+                out.append(("weekly", j))
+    return out
+
+
+def p6_assign(desc, d, vtype, z, pol=0):
+    """The description in datatype vtype with slot z holding the zero (two-valued: holding `pol`, every other slot 1-pol)."""
+    two = two_valued(vtype)
+
+    def val(path, v):
+        if v is None:
+            return None
+        if two:
+            return pol if path == z else 1 - pol
+        return 0 if path == z else v
+
+    out = dict(desc, vtype=vtype, default=val(("default",), desc["default"]))
+    if desc.get("exceptions") is not None:
+        out["exceptions"] = tuple(dict(e, tv=tuple((t, val(("exc", k, j), v)) for j, (t, v) in enumerate(e["tv"])))
+                                  for k, e in enumerate(desc["exceptions"]))
+    if desc.get("weekly") is not None:
+        wd = d.weekday()
+        out["weekly"] = tuple(tuple((t, val(("weekly", j) if i == wd else ("other-day", i, j), v)) for j, (t, v) in enumerate(day))
+                              for i, day in enumerate(desc["weekly"]))
+    return out
+
+
+def p6_assignments(desc, d, vtype):
+    """[(slot or None, polarity)]: which slot holds the zero."""
+    slots = p6_slots(desc, d)
+    if two_valued(vtype):
+        return [(z, pol) for z in slots for pol in (0, 1)]
+    return [(None, 0)] + [(z, 0) for z in slots]
+
+
+def p6e_shard(item, deadline):
+    """item = (seed, tier, [(number of the shape configuration, vtype)])."""
+    seed, tier, todo = item
+    acc = Acc()
+    cfgs = p6_shape_configs(tier)
+    for n, (ci, vtype) in enumerate(todo):
+        if time.time() > deadline:
+            acc.cap("part6: deadline")
+            break
+        rot = ((((ci + 1) * 2654435761) & 0xFFFFFFFF) >> 9) + seed
+        d = P2A_DATES[rot % len(P2A_DATES)]
+        base = p6_desc(cfgs[ci], d, rot)
+        for (z, pol) in p6_assignments(base, d, vtype):
+            desc = p6_assign(base, d, vtype, z, pol)
+            p2_eval_desc(acc, desc, (d,), I6, "p6", key=("p6", vtype, ci, z, pol), part="6")
+            for t in I6:
+                if ref.present_value(desc, d, t)[1] == 0:
+                    acc.add_info("part6 instants at which the prescribed value is the type's zero", 1)
+                    acc.outcome("p6:zero-of-the-type-prescribed:%s:from=%s" % (vtype, want_source(desc, d, t, 0)))
+        if n == 0:
+            acc.sample({"part": 6, "datatype": vtype, "schedule": desc, "date": str(d),
+                        "reference": [(t, ref.present_value(desc, d, t)[1]) for t in I6]})
+    return acc
+
+
+# ----------------------------------------------------------------------------- part 7: value domains and hundredths, timer-driven
+
+P7_DAYS = 3
+P7_ANCHORS = (datetime.date(2024, 2, 27), datetime.date(2023, 12, 30))
+
+
+def p7_domain_bodies(day0):
+    """Whole-second bodies for the datatype runs; exceptions are in force on run day 1 (and 2)."""
+    d1, d2 = day0 + datetime.timedelta(days=1), day0 + datetime.timedelta(days=2)
+    wk_a = tuple((((8, 0, 0, 0), 10 * (i + 1) + 1), ((17, 0, 0, 0), None)) for i in range(7))
+    wk_b = tuple((((0, 0, 0, 0), 10 * (i + 1) + 1), ((17, 0, 0, 0), 10 * (i + 1) + 2)) for i in range(7))
+    e_top = {"period": ("date", dpat(d1)), "tv": (((8, 0, 0, 0), 101), ((17, 0, 0, 0), 102)), "prio": 1}
+    e_mid = {"period": ("range", (dpat(d1), dpat(d2))), "tv": (((0, 0, 0, 0), 201), ((17, 0, 0, 0), None)), "prio": 2}
+    e_low = {"period": ("wnd", (ANY, ANY, d1.isoweekday())), "tv": (((0, 0, 0, 0), 301),), "prio": 16}
+    e_cal = {"period": ("cal", (("date", dpat(d1, False)),)), "tv": (((8, 0, 0, 0), 401), ((17, 0, 0, 0), None)), "prio": 9}
+    return [
+        {"weekly": wk_a, "exceptions": None, "default": 5},
+        {"weekly": wk_b, "exceptions": (e_top,), "default": 5},
+        {"weekly": wk_a, "exceptions": (e_mid, e_low), "default": 5},
+        {"weekly": None, "exceptions": (e_cal,), "default": 5},
+        {"weekly": wk_b, "exceptions": (e_low, e_top, e_mid), "default": 5},
+    ]
+
+
+def p7_slots(desc):
+    """Every value slot of a part-7 body (all weekdays' entries at position j count as one slot)."""
+    out = [("default",)]
+    for k, e in enumerate(desc.get("exceptions") or ()):
+        for j, (t, v) in enumerate(e["tv"]):
+            if v is not None:
+                out.append(("exc", k, j))
+    if desc.get("weekly"):
+        for j, (t, v) in enumerate(desc["weekly"][0]):
+            if v is not None:
+                out.append(("weekly", j))
+    return out
+
+
+def p7_assign(desc, vtype, z, pol):
+    two = two_valued(vtype)
+
+    def val(path, v):
+        if v is None:
+            return None
+        if two:
+            return pol if path == z else 1 - pol
+        return 0 if path == z else v
+
+    out = dict(desc, vtype=vtype, default=val(("default",), desc["default"]))
+    if desc.get("exceptions") is not None:
+        out["exceptions"] = tuple(dict(e, tv=tuple((t, val(("exc", k, j), v)) for j, (t, v) in enumerate(e["tv"])))
+                                  for k, e in enumerate(desc["exceptions"]))
+    if desc.get("weekly") is not None:
+        out["weekly"] = tuple(tuple((t, val(("weekly", j), v)) for j, (t, v) in enumerate(day)) for day in desc["weekly"])
+    return out
+
+
+def p7_hundredths_bodies(day0):
+    """Integer bodies whose entry times carry hundredths of a second."""
+    d1, d2 = day0 + datetime.timedelta(days=1), day0 + datetime.timedelta(days=2)
+
+    def weekly(*tvs):
+        return tuple(tuple((t, None if v is None else 10 * (i + 1) + v) for (t, v) in tvs) for i in range(7))
+
+    return [
+        ("weekly:08:00:00.50", {"weekly": weekly(((8, 0, 0, 50), 1), ((17, 0, 0, 0), None)), "exceptions": None, "default": 0}),
+        ("weekly:00:00:00.01+23:59:59.99", {"weekly": weekly(((0, 0, 0, 1), 1), ((23, 59, 59, 99), 2)), "exceptions": None, "default": 0}),
+        ("weekly:binary-fractions", {"weekly": weekly(((12, 30, 15, 25), 1), ((12, 30, 15, 75), None)), "exceptions": (), "default": 0}),
+        ("weekly:08:00:00.07", {"weekly": weekly(((8, 0, 0, 7), 1)), "exceptions": None, "default": 0}),
+        ("exception:08:00:00.50-then-Null-at-23:59:59.99",
+         {"weekly": weekly(((8, 0, 0, 0), 1)),
+          "exceptions": ({"period": ("date", dpat(d1)), "tv": (((8, 0, 0, 50), 101), ((23, 59, 59, 99), None)), "prio": 3},), "default": 0}),
+        ("exception:adjacent-hundredths",
+         {"weekly": None,
+          "exceptions": ({"period": ("wnd", (ANY, ANY, ANY)), "tv": (((8, 0, 0, 50), 101), ((8, 0, 0, 51), 102)), "prio": 16},), "default": 0}),
+        ("exception:23:59:59.99-over-two-days",
+         {"weekly": weekly(((0, 0, 0, 0), 1)),
+          "exceptions": ({"period": ("range", (dpat(d1), dpat(d2))), "tv": (((23, 59, 59, 99), 201),), "prio": 1},), "default": 0}),
+        ("two-exceptions:16:59:59.99-relinquish",
+         {"weekly": weekly(((8, 0, 0, 0), 1)),
+          "exceptions": ({"period": ("date", dpat(d1)), "tv": (((0, 0, 0, 0), 101), ((16, 59, 59, 99), None)), "prio": 2},
+                         {"period": ("cal", (("date", dpat(d1, False)),)), "tv": (((8, 0, 0, 50), 201),), "prio": 7}), "default": 0}),
+    ]
+
+
+def p7_periods(day0):
+    d1, d2 = day0 + datetime.timedelta(days=1), day0 + datetime.timedelta(days=2)
+    return [("open-both", (OPEN, OPEN)), ("enters-on-day-1", (dpat(d1), dpat(d2))), ("day-1-only", (dpat(d1, False), dpat(d1, False)))]
+
+
+def p7_configs(tier):
+    """(kind, name, description, day0, start instant)."""
+    for ai, day0 in enumerate(P7_ANCHORS):
+        dl = (day0.year, day0.month, day0.day)
+        for bi, body in enumerate(p7_domain_bodies(day0)):
+            for vtype in VTYPES:
+                slots = p7_slots(body)
+                todo = [(z, pol) for z in slots for pol in (0, 1)] if two_valued(vtype) else [(None, 0)] + [(z, 0) for z in slots]
+                for (z, pol) in todo:
+                    desc = p7_assign(body, vtype, z, pol)
+                    desc["period"] = (OPEN, OPEN) if (bi + ai) % 2 == 0 else WIDE
+                    yield ("domain", "%s:body%d:zero-at=%s" % (vtype, bi, "none" if z is None else z[0]), desc, dl, (0, 0, 0, 0))
+        for (hname, body) in p7_hundredths_bodies(day0):
+            for (pname, period) in p7_periods(day0):
+                for st in ((0, 0, 0, 0), (13, 27, 41, 50)):
+                    desc = dict(body)
+                    desc["period"] = period
+                    yield ("hundredths", "%s:%s" % (hname, pname), desc, dl, st)
+
+
+def whole_seconds(desc):
+    """The description with every entry time moved to a whole second, order kept: hundredths cut off, a time that would
+    then collide with the one before it moved on by a second (root-cause naming only)."""
+    moved = {}
+    last = -1
+    for t in ref.all_times(desc):
+        sec = max((t[0] * 60 + t[1]) * 60 + t[2], last + 1) if t[3] or ((t[0] * 60 + t[1]) * 60 + t[2]) <= last else (t[0] * 60 + t[1]) * 60 + t[2]
+        last = sec
+        moved[t] = (sec // 3600, sec // 60 % 60, sec % 60, 0)
+
+    def cut(tvs):
+        return tuple((moved[tuple(t)], v) for (t, v) in tvs)
+    out = dict(desc)
+    if desc.get("exceptions") is not None:
+        out["exceptions"] = tuple(dict(e, tv=cut(e["tv"])) for e in desc["exceptions"])
+    if desc.get("weekly") is not None:
+        out["weekly"] = tuple(cut(day) for day in desc["weekly"])
+    return out
+
+
+def p7_run(desc, day0, st):
+    """p3_run + root-cause naming: a run that fails with entry times carrying hundredths and does not fail with the same times
+    cut to whole seconds is named after the hundredths; a run in a value domain after the datatype."""
+    obs, verdict, swallowed = p3_run(desc, day0, st, days=P7_DAYS)
+    if verdict is not None:
+        sig, detail = verdict
+        what = sig.split(":")[1]
+        if hundredths_times(desc):
+            if p3_run(whole_seconds(tup(desc)), day0, st, days=P7_DAYS)[1] is None:
+                detail = dict(detail, judged_alone=sig, with_whole_second_times="runs as the reference prescribes")
+                sig = "timer:entry-time-with-hundredths:%s" % what
+        elif desc.get("vtype") is not None:
+            at = detail.get("at")
+            zero = at is not None and detail.get("expected") == 0
+            detail = dict(detail, judged_alone=sig)
+            sig = "timer:value-domain:%s:%s:want=%s[%s]" % (desc["vtype"], what, detail.get("source_expected", "-"),
+                                                           "zero-of-the-type" if zero else "other-value")
+        verdict = (sig, detail)
+    return obs, verdict, swallowed
+
+
+def p7_shard(item, deadline):
+    acc = Acc()
+    for n, (kind, name, desc, day0, st) in enumerate(item):
+        if time.time() > deadline:
+            acc.cap("part7: deadline")
+            break
+        d0 = datetime.date(*day0)
+        obs, verdict, swallowed = p7_run(desc, d0, st)
+        if n == 0:
+            obs2, verdict2, _ = p7_run(desc, d0, st)
+            if obs2 != obs or (verdict is None) != (verdict2 is None):
+                raise HarnessError("C20 part7: the same configuration ran twice with different observations")
+        acc.case(("p7", repr(desc), day0, st))
+        acc.traces += 1
+        acc.transitions += len(obs)
+        acc.add_info("part7 runs (%s)" % kind, 1)
+        acc.add_info("part7 probes", len(obs))
+        acc.add_info("part7 probes compared (schedule active)", sum(1 for o in obs if o[4]))
+        if kind == "domain":
+            acc.add_info("part7 probes at which the prescribed value is the type's zero", sum(1 for o in obs if o[4] and o[5] == 0))
+        for m in swallowed:
+            acc.swallowed[m] += 1
+        acc.outcome("p7:%s:%s" % (kind if kind == "hundredths" else "domain:" + desc["vtype"],
+                                  "ok" if verdict is None else ":".join(verdict[0].split(":")[1:3])))
+        if verdict is not None:
+            sig, detail = verdict
+            if acc.info.get("part7 failing runs repeated", 0) < 3:
+                acc.add_info("part7 failing runs repeated", 1)
+                obs3, verdict3, _ = p7_run(desc, d0, st)
+                if obs3 != obs or verdict3 is None or verdict3[0] != sig:
+                    raise HarnessError("C20 part7: a failing configuration did not fail the same way when repeated")
+            detail = dict(detail)
+            detail.update({"schedule": desc, "day0": str(d0), "start": st, "configuration": name})
+            acc.fail(sig, detail, {"part": 7, "desc": desc, "day0": day0, "start": st})
+        elif n == 0:
+            acc.sample({"part": 7, "configuration": name, "schedule": desc, "day0": str(d0), "start": st,
+                        "first_probes": [o for o in obs if o[4]][:8]})
+    return acc
+
+
 # ----------------------------------------------------------------------------- entry points
 
 def _dl(dates):
@@ -1808,15 +2272,22 @@ def run(tier, seed, deadline):
 
     # ---- part 3 first: few, and the liveness part of the statement
     cfgs = list(p3_configs(tier))
-    run_shards(p3_shard, chunks(cfgs, 64), t_start + 0.20 * span, into=acc)
+    run_shards(p3_shard, chunks(cfgs, 64), t_start + 0.15 * span, into=acc)
     acc.info["part3 configurations"] = len(cfgs)
     acc.info["part3 wall_s"] = round(time.time() - t_start, 1)
+
+    # ---- part 7: timer-driven runs in every value domain (the type's zero in every slot) and with hundredths in entry times
+    t7 = time.time()
+    cfgs = list(p7_configs(tier))
+    run_shards(p7_shard, chunks(cfgs, 64), t_start + 0.20 * span, into=acc)
+    acc.info["part7 configurations"] = len(cfgs)
+    acc.info["part7 wall_s"] = round(time.time() - t7, 1)
 
     # ---- part 4: the same kind of run in local time zones with daylight saving, across both clock changes
     t4 = time.time()
     zone_found = (os.environ.get("TZ"), time.tzname, time.localtime(0).tm_gmtoff)
     cfgs = list(p4_configs(tier))
-    run_shards(p4_shard, chunks(cfgs, 64), t_start + 0.40 * span, into=acc)
+    run_shards(p4_shard, chunks(cfgs, 64), t_start + 0.38 * span, into=acc)
     acc.info["part4 configurations"] = len(cfgs)
     acc.info["part4 zones"] = list(Z_ZONES[tier])
     acc.info["part4 wall_s"] = round(time.time() - t4, 1)
@@ -1826,9 +2297,16 @@ def run(tier, seed, deadline):
     # ---- part 5: histories (evaluate, reconfigure, evaluate again), pure and timer-driven; same in both tiers
     t5 = time.time()
     cases = list(p5_eval_cases()) + list(p5_timer_cases())
-    run_shards(p5_shard, chunks(cases, 64), t_start + 0.50 * span, into=acc)
+    run_shards(p5_shard, chunks(cases, 64), t_start + 0.46 * span, into=acc)
     acc.info["part5 histories"] = len(cases)
     acc.info["part5 wall_s"] = round(time.time() - t5, 1)
+
+    # ---- part 6: pure evaluation in every value domain, the type's zero in every slot, entry times with hundredths
+    t6 = time.time()
+    todo = [(ci, vt) for ci in range(len(p6_shape_configs(tier))) for vt in VTYPES]
+    run_shards(p6e_shard, [(seed, tier, c) for c in chunks(todo, 64)], t_start + 0.52 * span, into=acc)
+    acc.info["part6 (shape configuration, datatype) pairs"] = len(todo)
+    acc.info["part6 wall_s"] = round(time.time() - t6, 1)
 
     # ---- part 1
     t1 = time.time()
@@ -1897,6 +2375,10 @@ def replay(case):
     if part == 3:
         obs, verdict, swallowed = p3_run(case["desc"], datetime.date(*case["day0"]), tuple(case["start"]))
         lines = ["%s %s pv=%r armed=%r active=%r expected=%r" % o for o in obs if o[4]][:12]
+        return verdict is None, "verdict=%r\nswallowed=%r\n%s" % (verdict, swallowed, "\n".join(lines))
+    if part == 7:
+        obs, verdict, swallowed = p7_run(tup(case["desc"]), datetime.date(*case["day0"]), tuple(case["start"]))
+        lines = ["%s %s pv=%r armed=%r active=%r expected=%r" % o for o in obs if o[4]][-12:]
         return verdict is None, "verdict=%r\nswallowed=%r\n%s" % (verdict, swallowed, "\n".join(lines))
     if part == 4:
         obs, verdict, swallowed, notes = p4_run(case["tz"], case["year"], case["which"], case["desc"],
